@@ -34,10 +34,12 @@ async def wait_until(cond: Callable[[], bool], limit: float = WAIT) -> bool:
         await asyncio.sleep(0)
     loop = asyncio.get_event_loop()
     end = loop.time() + limit
+    step = 0.001
     while loop.time() < end:
         if cond():
             return True
-        await asyncio.sleep(0.001)
+        await asyncio.sleep(step)
+        step = min(step * 1.6, 0.02)
     return cond()
 
 
@@ -101,10 +103,11 @@ class Rec(asyncio.Protocol):
         self.lost = False
         self.exc: Optional[BaseException] = None
         self.t: Any = None
-        registry.append(self)
+        self.registry = registry
 
     def connection_made(self, t: Any) -> None:
         self.t = t
+        self.registry.append(self)
 
     def data_received(self, d: bytes) -> None:
         self.data += d
@@ -335,6 +338,10 @@ class Scenario:
                         skip_a = SOCKS5_REPLY_LEN
                     if not held:
                         await wait_until(lambda: bool(recs))
+                        # ... and until the open confirmation has travelled back (link idle)
+                        await quiesce(6)
+                        await wait_until(lambda: not hub.queues[pair.C2S] and not hub.queues[pair.S2C])
+                        await quiesce(6)
                     else:
                         await quiesce(8)
                 elif op[0] == 'a' and a is not None:
